@@ -1,4 +1,4 @@
-#!/usr/bin/env python3
+#!/usr/bin/env python3-vt
 """writes MANIFEST.json from manifest_src.py (kept valid at all times)"""
 import json, sys
 sys.path.insert(0, "/verif")
